@@ -13,7 +13,7 @@ macro_rules | `(tactic| pl_prim) => `(tactic| with_reducible refine wp_mono ((mn
 macro_rules | `(tactic| pl_prim) => `(tactic| with_reducible refine wp_mono ((mn_allL _).l _) ?_ (fun _ _ => trivial))
 
 mutual
-/-- the trees the simulation is proved for: no `try`, no `switch` (their counting sub-emitters), no unary minus (its
+/-- the trees the simulation is proved for: no unary minus (its
 folding reads code bytes back); listener bytes of fields as the parser produces them (`≤ 6`) -/
 def Node.plain : Node → Bool
   | .next n => n.plain
@@ -34,7 +34,8 @@ def Node.plain : Node → Bool
   | .idx a i => a.plain && i.plain
   | .carr a xs => a.plain && xs.plain
   | .marr xs => xs.plain
-  | .try_ _ _ | .switch _ _ => false
+  | .try_ b c => b.plain && c.plain
+  | .switch e b => e.plain && b.plain
   | _ => true
 /-- lvalues (`EmitAssignmentStatement`, `EmitRef`): a field of anything in the class, or an element of an lvalue -/
 def Node.plainA : Node → Bool
@@ -83,10 +84,10 @@ macro_rules | `(tactic| rel_close) => `(tactic| assumption)
 
 /-! ## `AddLabel` (a pair comes back) -/
 
-def J2 (L : Nat) (x y : R (Bool × St)) (Q : Bool × St → Bool × St → Prop) : Prop :=
+def J2 {α : Type} (L : Nat) (x y : R (α × St)) (Q : α × St → α × St → Prop) : Prop :=
   ∀ r, x = .ok r → pl r.2 ≤ L → wp y (fun r' => Q r r') ECO
 
-theorem J.bind2 {L : Nat} {x1 y1 : R (Bool × St)} {f1 f2 : Bool × St → R St} {Q1 : Bool × St → Bool × St → Prop}
+theorem J.bind2 {α : Type} {L : Nat} {x1 y1 : R (α × St)} {f1 f2 : α × St → R St} {Q1 : α × St → α × St → Prop}
     {Q : St → St → Prop} (h1 : J2 L x1 y1 Q1) (hm : ∀ r, Mono r.2 (f1 r)) (h2 : ∀ r r', Q1 r r' → J L (f1 r) (f2 r') Q) :
     J L (x1 >>= f1) (y1 >>= f2) Q := by
   intro c'' hx hL
